@@ -98,6 +98,17 @@ def generate(repo):
     need(r"GZip::kSizeMax\s*=\s*static_cast<std::size_t>\s*\(\s*std::numeric_limits<uInt>::max\(\)\s*\)", cc, "GZip::kSizeMax = UINT_MAX")
     need(r"BZip::kSizeMax\s*=\s*static_cast<std::size_t>\s*\(\s*std::numeric_limits<unsigned int>::max\(\)\s*\)", cc, "BZip::kSizeMax = UINT_MAX")
 
+    # ReadStream::Read: at the end of a member the next reader is ALWAYS looked for with
+    # ReadFactory on the left-over input (also when that is empty), then the thunk
+    rs = body_of(cc, r"template\s*<class\s+Compression>\s*class\s+ReadStream[^{]*\{", "class ReadStream")
+    rr = body_of(rs, r"std::size_t\s+Read\s*\(\s*void\s*\*to\s*,\s*std::size_t\s+amount\s*,\s*ReadCompressed\s*&thunk\s*\)\s*\{", "ReadStream::Read")
+    need(r"if\s*\(\s*!back_\.Process\(\)\s*\)\s*\{\s*std::size_t\s+ret\s*=[^;]*;\s*"
+         r"ReplaceThis\s*\(\s*ReadFactory\s*\(\s*file_\.release\(\)\s*,\s*ReadCount\(thunk\)\s*,\s*back_\.NextInput\(\)\s*,\s*back_\.AvailInput\(\)\s*,\s*true\s*\)\s*,\s*thunk\s*\)\s*;\s*"
+         r"if\s*\(\s*ret\s*\)\s*return\s+ret\s*;\s*return\s+Current\(thunk\)->Read\(to,\s*amount,\s*thunk\)\s*;", rr,
+         "end of member: unconditional ReplaceThis(ReadFactory(rest of input, require_compressed)) then thunk")
+    need(r"if\s*\(\s*!back_\.AvailInput\(\)\s*\)\s*ReadInput\s*\(\s*thunk\s*\)\s*;", rr, "refill only when the input buffer is empty")
+    need(r"while\s*\(\s*back_\.NextOutput\(\)\s*==\s*to\s*\)", rr, "loop while nothing was produced")
+
     # DetectMagic: gzip test, then BZ, then XZ
     dm = body_of(cc, r"MagicResult\s+DetectMagic\s*\([^)]*\)\s*\{", "DetectMagic")
     g = need(r"length\s*>=\s*(\d+)\s*&&\s*header\[0\]\s*==\s*(\w+)\s*&&\s*header\[1\]\s*==\s*(\w+)\s*\)\s*\{\s*return\s+UTIL_GZIP", dm, "gzip magic test")
